@@ -21,16 +21,17 @@ import (
 func init() { register("hist", runHist) }
 
 type histMode struct {
-	flavors   []string
-	gen       hist.GenConfig
-	oracle    func(h *hist.History, o *hist.Outcome) []hist.Problem
-	roracle   func(r *hist.Run) []hist.Problem // oracle that needs the recorded traffic
-	presence  bool                             // a third of the histories run on a presenceless document
-	serverDoc bool                             // compare server-side rebuilds with the change-by-change replica
-	cacheOnly bool                             // ... with the rebuild from the store alone instead (C20)
-	smallSnap bool                             // half of the histories run on projects with tiny snapshot interval/threshold
-	proto     bool                             // emit protocol-model cases
-	twin      string                           // "", "nogc"
+	flavors    []string
+	gen        hist.GenConfig
+	oracle     func(h *hist.History, o *hist.Outcome) []hist.Problem
+	roracle    func(r *hist.Run) []hist.Problem // oracle that needs the recorded traffic
+	presence   bool                             // a third of the histories run on a presenceless document
+	serverDoc  bool                             // compare server-side rebuilds with the change-by-change replica
+	cacheOnly  bool                             // ... with the rebuild from the store alone instead (C20)
+	optOutSome bool                             // one history in seven runs with opt-out attachments only
+	smallSnap  bool                             // half of the histories run on projects with tiny snapshot interval/threshold
+	proto      bool                             // emit protocol-model cases
+	twin       string                           // "", "nogc"
 }
 
 func baseOracle(h *hist.History, o *hist.Outcome) []hist.Problem {
@@ -143,7 +144,7 @@ func modeFor(prop string) (*histMode, error) {
 				return append(append(baseOracle(h, o), hist.CheckConvergence(o)...), hist.CheckCloneRoot(o)...)
 			}}, nil
 	case "C08":
-		return &histMode{flavors: append(append([]string{}, all...), "tree", "treex"),
+		return &histMode{optOutSome: true, flavors: append(append([]string{}, all...), "tree", "treex"),
 			gen: hist.GenConfig{MinClients: 1, MaxClients: 3, MinSteps: 6, MaxSteps: 30, FailUpd: true, Undo: true},
 			oracle: func(h *hist.History, o *hist.Outcome) []hist.Problem {
 				var ps []hist.Problem
@@ -264,6 +265,7 @@ func runHist(cfg *config) error {
 			}
 		}
 		sig["tree_split_undo"] = splitUndo
+		sig["all_optout"] = small.AllOptOut
 		// did a storage fault fire after the pushed changes were stored and before the client's
 		// checkpoint was (finding P8)?
 		window := false
@@ -381,6 +383,11 @@ func runHist(cfg *config) error {
 		if mode.presence && i%3 == 2 {
 			h.NoPresenceDoc = true
 			h.LateNoFlag = i%2 == 0
+		}
+		if mode.optOutSome && i%7 == 6 {
+			// every client of this history attaches WithDisableGC (an opt-out attachment: its changes
+			// carry a vector with the author's entry only)
+			h.AllOptOut = true
 		}
 		h.Seed = cfg.seed
 		o, ps := runOne(h)
